@@ -38,7 +38,12 @@ RULE = (
     'is one of 30 texts special to replacement machinery or to text-mode reading (backslash escapes and group '
     'references, $1/&, {0}, regex and shell metacharacters, TAB, double/leading/trailing space, CR LF / lone CR / '
     'embedded and leading LF, FF VT FS NEL LS PS, a leading BOM; files written byte-exactly) alone, as key=<ref>, between literals and next to a second reference in '
-    'both declaration orders; [repeating-stdout] a file-less :output reference to a REPEATING producer for every set '
+    'both declaration orders; [whitespace] literal text other than single blanks (double/multiple blanks, TAB, LF, '
+    'leading/trailing blanks) between and around references, for an ordinary consumer and for a consumer with '
+    '`command.interpreter: bash` and no executable (written arguments `exe0 <arguments>`); [relative-declared] '
+    'references whose producer name is given through a component variable (`%(p0)s:ref`, all four reference forms, '
+    'declared relative/absolute, used in both spellings; and next to the same-named stage-0 producer in both orders); '
+    '[repeating-stdout] a file-less :output reference to a REPEATING producer for every set '
     'of archived streams streams/<n>.stdout from {every window of 1-4 consecutive repetitions over 0..13, windows '
     'straddling 99/100 and 999/1000, 8 non-contiguous sets} (plus a newer .stderr stream and a plain out.stdout as '
     'decoys): cross-stage consumer (key=<ref>; next to <producer>:ref in both declaration orders) and same-stage '
@@ -66,6 +71,9 @@ ASSUMPTIONS = [
     'for a file-less :output reference to a repeating producer "the referenced file" is the archived stream '
     'streams/<n>.stdout with the numerically highest n (docstring of ComponentSpecification.path_to_stdout: "most '
     'recently generated file"); a repeating producer without any stream is not judged',
+    'for a consumer with command.interpreter and no executable the first blank-delimited word of the written arguments '
+    'is the executable (FlowIR.digest_interpreter_field) and the remainder, byte for byte, is the argument string (exactly '
+    'one blank follows the executable in every generated case)',
     'experiments are instantiated with the same recipe as tests/utils.experiment_from_flowir but without the final '
     'validateExperiment() (it would reject the consumers whose arguments the defect under test corrupts)',
 ]
@@ -264,6 +272,18 @@ def build_doc(cases):
     for i, c in enumerate(cases):
         comp = {'name': 'c%05d' % i, 'stage': G.CONSUMER_STAGE, 'references': G.declared_strings(c),
                 'command': {'executable': 'echo', 'arguments': G.render_arguments(c)}}
+        if c.get('interpreter'):
+            # no executable: the first blank-delimited word of the written arguments is the executable
+            comp['command'] = {'interpreter': c['interpreter'], 'arguments': 'exe0 ' + G.render_arguments(c)}
+        if c.get('decl_via_variable'):
+            comp['variables'] = {}
+            comp['references'] = []
+            for k, r in enumerate(c['refs']):
+                if r[0] is None:
+                    comp['references'].append(G.spell(r, r[4]))
+                    continue
+                comp['variables']['p%d' % k] = r[1]
+                comp['references'].append(G.spell([r[0], '%%(p%d)s' % k, r[2], r[3]], r[4]))
         if c.get('consumer_repeat'):
             comp['workflowAttributes'] = {'repeatInterval': 5}
         comps.append(comp)
@@ -352,11 +372,14 @@ def judge_one(col, c, spec, inst, on_fail):
         raise HarnessError('oracle and construction disagree on %s' % json.dumps(c))
     if set(used) != {i for i, r in enumerate(c['refs']) if r[3] in SUBST}:
         raise HarnessError('a declared ref/output reference is unused in %s' % json.dumps(c))
-    if spec.commandDetails.get('arguments') != args:
+    # (not for interpreter-without-executable consumers: there the loader derives the arguments from the written text and
+    #  a loader that alters the literal text is exactly what the property forbids; not for references declared through
+    #  variables: how the implementation classifies them is observed through the substituted value)
+    if not c.get('interpreter') and spec.commandDetails.get('arguments') != args:
         raise HarnessError('the loader changed the argument string %r -> %r' % (args, spec.commandDetails.get('arguments')))
     want = sorted(O.spelling(r[0], r[1], r[2], r[3], 'abs') for r in c['refs'])
     got = sorted(r.absoluteReference for r in spec.dataReferences)
-    if want != got:
+    if want != got and not c.get('decl_via_variable'):
         raise HarnessError('the loader changed the declared references %r -> %r' % (want, got))
     # ---- evidence
     col.evaluated()
